@@ -827,11 +827,19 @@ def _run_user(case, R):
                 Ml = np.array([val[els.index(e)] for e in labels])
                 rest = els[1:]
                 Dref = np.zeros((n - 1, n - 1))
+                Sabs = np.zeros((n - 1, n - 1))
                 for k, ek in enumerate(rest):
                     for j, ej in enumerate(rest):
-                        Dref[k, j] = sum(((1.0 if ei == ek else 0.0) - xl[labels.index(ek)]) * xl[i] * Ml[i]
-                                         * Phi[i][ej] for i, ei in enumerate(labels))
-                sc = np.sqrt(np.abs(np.outer(np.diag(Dref), np.diag(Dref))))
+                        terms = [((1.0 if ei == ek else 0.0) - xl[labels.index(ek)]) * xl[i] * Ml[i] * Phi[i][ej] for i, ei in enumerate(labels)]
+                        Dref[k, j] = sum(terms)
+                        # conditioning: the curvature row of a dilute species holds RT/x_i (1e7 ... 1e8) next to entries of 1e3;
+                        # both routes obtain the small ones with an absolute noise of ~1e-11 of the largest entry of the row
+                        Sabs[k, j] = sum(abs(((1.0 if ei == ek else 0.0) - xl[labels.index(ek)]) * xl[i] * Ml[i]) * 1e-5 * max(abs(v) for v in Phi[i].values())
+                                         for i, ei in enumerate(labels))
+                # scale of an entry: sqrt(D_kk D_jj), but never below the conditioning floor computed above (prescribed mobilities
+                # may differ by ten orders of magnitude and the fastest species may be dilute: a thorough run raised a false
+                # alarm at 8.8e-5 relative on an entry that is 1e-10 of the largest one)
+                sc = np.maximum(np.sqrt(np.abs(np.outer(np.diag(Dref), np.diag(Dref)))), Sabs)
                 rel = float(np.max(np.abs(Dm - Dref) / sc)) if np.all(sc > 0) else float('inf')
                 if n == 2:      # Darken with kawin's own curvature and the prescribed mobilities
                     a, b = els[0], els[1]
